@@ -74,13 +74,16 @@ where
             return Poll::Ready(Err(error.clone()));
         };
 
+        // Register before checking: an error stored after the check below then
+        // finds the waker and wakes this task instead of being missed.
+        self.waker().register(cx.waker());
+
         // Check if the connection is in error state
         if let Some(err) = self.get_conn_error() {
             let err = self.close_if_needed(err);
             // err might be a different error so match again
             return Poll::Ready(Err(self.convert_to_connection_error(err)));
         }
-        self.waker().register(cx.waker());
         Poll::Pending
     }
 
